@@ -652,7 +652,7 @@ static Cfg random_cfg(Rng &r, int n, int t, int f, int sched) {
 	if (c.nbcast == 0) { int p = *senders.begin(); for (size_t i = 0; i <= c.pprog[p].size(); i++) if (i == c.pprog[p].size() || c.pprog[p][i].k == 'U') { c.pprog[p].insert(c.pprog[p].begin() + i, Op{'B', 0}); break; } c.nbcast = 1; }
 	c.style.assign(n, 0); int sm = (int)r.below(4);
 	for (int p = 0; p < n; p++) c.style[p] = sm == 0 ? 0 : sm == 1 ? 1 : sm == 2 ? (int)r.below(3) : 2;
-	c.w_api = (int[]){2, 10, 40, 150}[r.below(4)]; c.w_adv = (int[]){3, 10, 30}[r.below(3)]; c.w_idle = (int)r.below(8);
+	static const int WAPI[] = {2, 10, 40, 150}, WADV[] = {3, 10, 30}; c.w_api = WAPI[r.below(4)]; c.w_adv = WADV[r.below(3)]; c.w_idle = (int)r.below(8);
 	c.pct_d = (int)r.below(4);
 	if (f > 0) { c.adv_profile = (int)r.below(5); c.adv_budget = r.below(12) == 0 ? 0 : 2 + (int)r.below(n >= 7 ? 10 : 16); }
 	if (sched == 2) {
@@ -687,3 +687,184 @@ struct CaseAcc {
 	}
 };
 static void run_full(Run &R) { MainSched ms(R); ms.run(); if (!R.capped) R.epilogue(); R.final_checks(); }
+
+// ================================================================ scripted runs (systematic + directed)
+static Cfg fixed_cfg(int n, int t, std::vector<int> byz, int fifo_mode, int tmpl, std::map<int, int> bcasts /* sender -> count (first segment) */) {
+	Cfg c; c.n = n; c.t = t; c.byz.assign(n, 0); for (int b : byz) c.byz[b] = 1; c.sched = 3;
+	Rng dummy(1, 1); fill_ctx(c, fifo_mode, dummy);
+	fill_programs(c, tmpl, [&](int p, int seg, int) { return (seg == 0 && bcasts.count(p)) ? bcasts[p] : 0; });
+	c.style.assign(n, 0); return c;
+}
+// executes API ops of party p up to (not including) its first 'U'
+static void pre_ops(Run &R, int p) { while (R.api_enabled(p) && R.cfg.pprog[p][R.pc[p]].k != 'U') R.api_step(p); }
+static void finish_scripted(Run &R) {
+	for (int p : R.honest_ids) while (R.api_enabled(p)) R.api_step(p);
+	R.epilogue(); R.final_checks();
+}
+static std::vector<std::pair<int, int>> links_oldest_first(Run &R) {
+	std::vector<std::pair<int, std::pair<int, int>>> v;
+	for (int a = 0; a < R.n; a++) for (int b = 0; b < R.n; b++) if (!R.q[a][b].empty()) v.push_back({R.q[a][b].front(), {a, b}});
+	std::sort(v.begin(), v.end()); std::vector<std::pair<int, int>> o; for (auto &x : v) o.push_back(x.second); return o;
+}
+
+// ---- n = 2: every schedule of one broadcast (sleep sets: one representative per class of
+// schedules that differ only in the order of hand-overs to different parties)
+struct Sys2 {
+	Cfg cfg; uint64_t sa, sb; int sender; bool late_set; CaseAcc &acc; long traces = 0, blocked = 0, nodes = 0, cap;
+	Sys2(const Cfg &c, uint64_t a, uint64_t b, int snd, bool late, CaseAcc &ac, long cap_) : cfg(c), sa(a), sb(b), sender(snd), late_set(late), acc(ac), cap(cap_) {}
+	// transitions: 0..3 link a*2+b, 4 = receiver's setID
+	static bool indep(int x, int y) { int rx = x == 4 ? -1 : x % 2, ry = y == 4 ? -1 : y % 2; return rx != ry; }
+	void apply(Run &R, int tr) { int recv = 1 - sender; if (tr == 4) R.api_step(recv); else R.handover(tr / 2, tr % 2, -1); }
+	std::vector<int> enabled(Run &R) { std::vector<int> e; for (int a = 0; a < 2; a++) for (int b = 0; b < 2; b++) if (!R.q[a][b].empty()) e.push_back(a * 2 + b);
+		int recv = 1 - sender; if (R.api_enabled(recv) && R.cfg.pprog[recv][R.pc[recv]].k != 'U') e.push_back(4); return e; }
+	void explore(std::vector<int> &prefix, std::set<int> sleep) {
+		if (traces >= cap) return;
+		nodes++;
+		Run R(cfg, sa, sb);
+		pre_ops(R, sender); if (!late_set) pre_ops(R, 1 - sender);
+		for (int tr : prefix) apply(R, tr);
+		std::vector<int> en = enabled(R);
+		if (en.empty()) { finish_scripted(R); traces++; acc.absorb(R, "sys2", (int)traces); return; }
+		std::vector<int> done; bool any = false;
+		for (int tr : en) {
+			if (sleep.count(tr)) continue;
+			any = true;
+			std::set<int> ns; for (int s : sleep) if (indep(s, tr)) ns.insert(s); for (int s : done) if (indep(s, tr)) ns.insert(s);
+			prefix.push_back(tr); explore(prefix, ns); prefix.pop_back();
+			done.push_back(tr);
+		}
+		if (!any) blocked++;
+	}
+};
+
+// ---- n = 4: oldest-message-first order with at most two deviations.
+// FREEZE(k, link): from step k on the link is withheld until nothing else can be handed over;
+// SWAP(k, c): at step k the c-th oldest eligible link is served instead of the oldest.
+struct Dev { char kind; int k; int x; };
+static long run_deviations(Run &R, const std::vector<Dev> &devs, bool finish = true) {
+	for (int p : R.honest_ids) pre_ops(R, p);
+	std::set<std::pair<int, int>> frozen; long k = 0;
+	for (;; k++) {
+		if (k > 20000) { R.capped = true; break; }
+		for (auto &d : devs) if (d.kind == 'F' && d.k == k) frozen.insert({d.x / R.n, d.x % R.n});
+		std::vector<std::pair<int, int>> all = links_oldest_first(R), el;
+		if (all.empty()) break;
+		for (auto &l : all) if (!frozen.count(l)) el.push_back(l);
+		if (el.empty()) { frozen.clear(); el = all; }
+		size_t ix = 0; for (auto &d : devs) if (d.kind == 'S' && d.k == k && (size_t)d.x < el.size()) ix = d.x;
+		R.handover(el[ix].first, el[ix].second, -1);
+	}
+	if (finish) finish_scripted(R);
+	return k;
+}
+struct Sys4Variant { int sender, fifo, nb; std::vector<int> byz; };
+static const Sys4Variant SYS4V[] = {{3, 0, 1, {}}, {0, 1, 2, {}}, {3, 0, 1, {1}}, {1, 0, 1, {0}}, {3, 1, 2, {}}, {2, 2, 2, {3}}};
+
+// ---- directed: ready quorum first, r-request sent, then the sender's r-send, then the answers
+static void directed_request_then_payload(CaseAcc &acc, uint64_t sa, uint64_t sb, int fifo, int victim, int variant) {
+	Cfg c = fixed_cfg(4, 1, {}, fifo, 0, {{3, fifo ? 2 : 1}});
+	Run R(c, sa, sb);
+	for (int p : R.honest_ids) pre_ops(R, p);
+	bool requested = false, payload_in = false; long guard = 0;
+	for (;;) {
+		if (++guard > 5000) { R.capped = true; break; }
+		if (!requested) for (size_t i = 0; i < R.msgs.size(); i++) if (R.msgs[i].from == victim && R.msgs[i].act == 4) requested = true;
+		std::vector<std::pair<int, int>> all = links_oldest_first(R), el;
+		if (all.empty()) break;
+		if (!requested) { for (auto &l : all) if (!(l.first == 3 && l.second == victim)) el.push_back(l); }
+		else if (!payload_in) { for (auto &l : all) if (l.first == 3 && l.second == victim) el.push_back(l);
+			// hand over the withheld r-send(s) of the sender first, then (variant 1) let the answers race in reverse order
+			if (!el.empty() && R.msgs[R.q[3][victim].front()].act != 1) el.clear();
+			if (el.empty()) payload_in = true; }
+		if (el.empty()) { el = all; if (variant == 1) std::reverse(el.begin(), el.end()); }
+		R.handover(el[0].first, el[0].second, -1);
+	}
+	if (requested) count("directed_request_before_payload"); else R.bad("C14/harness/directed", "directed schedule did not reach the r-request step");
+	finish_scripted(R);
+	acc.absorb(R, "directed", variant + 2 * fifo + 4 * victim);
+}
+
+// ================================================================ cases
+struct RClass { int sched, n, t, fmin, fmax, reps_q; };
+int main(int argc, char **argv) {
+	init(argc, argv);
+	null_cerr();
+	if (!init_libTMCG()) { fprintf(stderr, "init_libTMCG failed\n"); return 2; }
+	bool quick = ctx.quick();
+	const int RUNS = (int)ctx.option_l("runs_per_case", 10);
+	const int mult = (int)ctx.option_l("mult", quick ? 1 : 60);
+	static const char *SCHEDN[] = {"random", "pct", "starve"};
+	std::vector<RClass> classes;
+	for (int sched = 0; sched < 3; sched++) {
+		int w = sched == 0 ? 3 : 2;
+		classes.push_back({sched, 2, 0, 0, 0, 2 * w}); classes.push_back({sched, 3, 0, 0, 0, 2 * w});
+		for (int n : {4, 5, 7}) { int tm = (n - 1) / 3; int hv = n == 7 ? 1 : 2;
+			classes.push_back({sched, n, 0, 0, 0, 1 * w}); classes.push_back({sched, n, tm, 0, 0, hv * w}); classes.push_back({sched, n, tm, 1, tm, (n == 4 ? 5 : n == 5 ? 3 : 2) * w}); }
+	}
+	long k = 0;
+	// ---- A. seeded exploration: random link choice, PCT priorities, starved links
+	for (auto &rc : classes) for (int rep = 0; rep < rc.reps_q * mult; rep++) {
+		J d; d.kv("class", "explore").kv("sched", SCHEDN[rc.sched]).kv("n", rc.n).kv("t", rc.t).kv("byz", rc.fmax > 0).kv("rep", rep);
+		if (!case_begin(k++, d.str())) continue;
+		CaseAcc acc; Rng cr = case_rng(k, 7);
+		for (int i = 0; i < RUNS; i++) {
+			int f = rc.fmax == 0 ? 0 : rc.fmin + (int)cr.below(rc.fmax - rc.fmin + 1);
+			Cfg c = random_cfg(cr, rc.n, rc.t, f, rc.sched);
+			Run R(c, ctx.seed * 1000003ULL + (uint64_t)k, (uint64_t)i + 1);
+			run_full(R); acc.absorb(R, SCHEDN[rc.sched], i);
+		}
+		case_end(d.str() + std::to_string(ctx.seed), acc.evals > 0, acc.sample, acc.evals, (long long)acc.hashes.size());
+	}
+	// ---- B. n = 2: all schedules of a single broadcast
+	for (int sender = 0; sender < 2; sender++) for (int fifo = 0; fifo < 2; fifo++) for (int late = 0; late < 2; late++) {
+		J d; d.kv("class", "sys2").kv("sender", sender).kv("fifo", fifo).kv("receiver_sets_channel_late", late);
+		if (!case_begin(k++, d.str())) continue;
+		CaseAcc acc; Cfg c = fixed_cfg(2, 0, {}, fifo, 0, {{sender, 1}});
+		Sys2 s2(c, ctx.seed * 7919ULL + 5, (uint64_t)k, sender, late, acc, ctx.option_l("sys2_cap", quick ? 1500 : 400000));
+		std::vector<int> prefix; s2.explore(prefix, {});
+		count("sys2_complete_schedules", s2.traces); count("sys2_sleep_blocked", s2.blocked); count("sys2_nodes", s2.nodes); if (s2.traces >= s2.cap) count("sys2_capped_cases");
+		case_end(d.str(), acc.evals > 0, acc.sample, acc.evals, (long long)acc.hashes.size());
+	}
+	// ---- C. n = 4: oldest-first order with <= 2 deviations
+	{
+		int nvar = quick ? 4 : 6; const int B = 4, NBLK = 30;
+		for (int v = 0; v < nvar; v++) for (int blk = 0; blk < NBLK; blk++) {
+			J d; d.kv("class", "sys4").kv("variant", v).kv("first_deviation_steps", std::to_string(blk * B) + ".." + std::to_string(blk * B + B - 1));
+			if (!case_begin(k++, d.str())) continue;
+			const Sys4Variant &sv = SYS4V[v]; CaseAcc acc; Rng cr = case_rng(k, 9);
+			Cfg c = fixed_cfg(4, 1, sv.byz, sv.fifo, 0, {{sv.sender, sv.nb}});
+			if (sv.fifo == 2) { c.ctx[1].fifo = true; }
+			uint64_t sa = ctx.seed * 104729ULL + 3, sb = 77 + v;
+			long Lb; { Run R(c, sa, sb); Lb = run_deviations(R, {}); if (blk == 0) acc.absorb(R, "sys4", 0); }
+			int stride = (int)ctx.option_l("sys4_stride", quick ? (v < 2 ? 4 : 8) : 1);
+			int npairs = (int)ctx.option_l("sys4_pairs", quick ? 1 : 10);
+			int ri = 1;
+			for (int k1 = blk * B; k1 < blk * B + B && k1 < Lb; k1++) {
+				if (k1 % stride) continue;
+				std::vector<Dev> firsts;
+				for (int x = 0; x < 16; x++) if (!c.byz[x % 4] && !c.byz[x / 4]) firsts.push_back({'F', k1, x});
+				for (int x = 1; x <= (quick ? 3 : 6); x++) firsts.push_back({'S', k1, x});
+				for (auto &d1 : firsts) {
+					{ Run R(c, sa, sb); run_deviations(R, {d1}); acc.absorb(R, "sys4", ri++); count("sys4_single_deviation_runs"); }
+					std::vector<Dev> seconds;
+					if (!quick && d1.kind == 'F') for (int x = d1.x + 1; x < 16; x++) if (!c.byz[x % 4] && !c.byz[x / 4]) seconds.push_back({'F', k1, x});
+					for (int j = 0; j < npairs; j++) { int k2 = k1 + 1 + (int)cr.below((uint64_t)(Lb + 6 - k1)); if (cr.coin()) seconds.push_back({'F', k2, (int)cr.below(16)}); else seconds.push_back({'S', k2, 1 + (int)cr.below(4)}); }
+					for (auto &d2 : seconds) { Run R(c, sa, sb); run_deviations(R, {d1, d2}); acc.absorb(R, "sys4", ri++); count("sys4_double_deviation_runs"); }
+				}
+			}
+			case_end(d.str(), acc.evals > 0, acc.sample, acc.evals, (long long)acc.hashes.size());
+		}
+	}
+	// ---- D. directed schedules around the payload request
+	{
+		J d; d.kv("class", "directed").kv("what", "ready quorum, r-request, then r-send, then answers");
+		if (case_begin(k++, d.str())) {
+			CaseAcc acc;
+			for (int fifo = 0; fifo < 2; fifo++) for (int victim = 0; victim < 3; victim++) for (int variant = 0; variant < 2; variant++)
+				directed_request_then_payload(acc, ctx.seed * 31ULL + 1, 5, fifo, victim, variant);
+			case_end(d.str(), acc.evals > 0, acc.sample, acc.evals, (long long)acc.hashes.size());
+		}
+	}
+	finish();
+	return 0;
+}
